@@ -26,22 +26,25 @@ def tuples (n : Nat) : Nat → List (List Nat)
 /-- reduced density tensor `⟨bra| pattern |ket⟩` for every index tuple (Spec, exact).
     `mode = 1`: spin-summed over the spin groups, letters range over spatial orbitals;
     `mode = 0`: spin-orbital, letters range over `2*norb` FQE spin orbitals (alpha block, beta block). -/
-def rdmSpec (norb mode : Nat) (bra ket : Vec) (groups : List Nat) (pat : List (Nat × Bool)) : List GQ :=
-  let nl := groups.length
+def rdmSpecAt (norb mode : Nat) (bra ket : Vec) (groups : List Nat) (pat : List (Nat × Bool))
+    (idxs : List (List Nat)) : List GQ :=
   let ngroups := (groups.foldl max 0) + 1
   let sbra := iota norb bra
   let sket := iota norb ket
   if mode == 1 then
-    (tuples norb nl).map fun idx =>
+    idxs.map fun idx =>
       (tuples 2 ngroups).foldl (fun acc spins =>
         let term : Term := pat.map fun (l, dg) => (2 * idx.getD l 0 + spins.getD (groups.getD l 0) 0, dg)
         acc + inner sbra (applyOpSpec [(1, term)] sket)) 0
   else
-    (tuples (2 * norb) nl).map fun idx =>
+    idxs.map fun idx =>
       let term : Term := pat.map fun (l, dg) =>
         let p := idx.getD l 0
         ((if p < norb then 2 * p else 2 * (p - norb) + 1), dg)
       inner sbra (applyOpSpec [(1, term)] sket)
+
+def rdmSpec (norb mode : Nat) (bra ket : Vec) (groups : List Nat) (pat : List (Nat × Bool)) : List GQ :=
+  rdmSpecAt norb mode bra ket groups pat (tuples (if mode == 1 then norb else 2 * norb) groups.length)
 
 def showRefusal : Option Refusal → String
   | none => "ok"
@@ -175,6 +178,16 @@ def cmd (name : String) : P String := do
       let n ← nat
       let pat ← many n (do let l ← nat; let d ← nat; return (l, d != 0))
       let t := rdmSpec norb mode bra ket groups pat
+      return " ".intercalate (toString t.length :: t.map GQ.toStr)
+  -- selected elements only: as `rdm`, followed by `<k>` and k index tuples (one index per letter)
+  | "rdmel" => do
+      let norb ← nat; let mode ← nat; let bra ← vec; let ket ← vec
+      let groups ← natList
+      let n ← nat
+      let pat ← many n (do let l ← nat; let d ← nat; return (l, d != 0))
+      let k ← nat
+      let idxs ← many k (many groups.length nat)
+      let t := rdmSpecAt norb mode bra ket groups pat idxs
       return " ".intercalate (toString t.length :: t.map GQ.toStr)
   -- Model: reverse_bubble_list on a list of keys: `<n> keys` -> `<swaps> <n> sorted keys`
   | "bubble" => do
